@@ -22,10 +22,11 @@ import (
 // the program obtained for a text must behave like a fresh compilation of that text.
 
 var cacheTexts = map[string]string{
-	"t1": "send [USD 3] (\n\tsource = @a\n\tdestination = @x\n)\n",
+	// t1 and t4 are equal up to white space - inside a string literal, where it is content
+	"t1": "send [USD 3] (\n\tsource = @a\n\tdestination = @x\n)\nset_tx_meta(\"note\", \"a b\")\n",
 	"t2": "send [USD 2] (\n\tsource = {\n\t\t@a\n\t\t@b\n\t}\n\tdestination = {\n\t\t1/2 to @x\n\t\tremaining to @y\n\t}\n)\n",
 	"t3": "vars {\n\tmonetary $amt\n}\nsend [USD 7] - $amt (\n\tsource = @world\n\tdestination = @x\n)\nset_tx_meta(\"k\", [USD 7])\n",
-	"t4": "send [USD 1] (\n\tsource = @b allowing unbounded overdraft\n\tdestination = @a\n)\n",
+	"t4": "send [USD 3] (\n  source = @a\n  destination = @x\n)\n\nset_tx_meta(\"note\", \"a  b\")\n",
 }
 var cacheVars = map[string]map[string]string{"t3": {"amt": "USD 3"}}
 
